@@ -183,10 +183,9 @@ Proof.
   - rewrite Rs. apply Fk; assumption.
 Qed.
 
-Theorem poll_body_Rp : forall s0, brRp s0 (poll_body cci s0).
+Theorem poll_body_Rp : forall s0, brRp (poll_start s0) (poll_body cci s0).
 Proof.
   intros s0. unfold poll_body. fold (poll_start s0).
-  eapply brRp_trans; [apply H_start|].
   apply pend_Rp; [apply H_syn_ack|]. intros s1 _ _ _.
   apply pend_Rp; [destruct (immediate_ack_to_transmit s1); [apply H_send_ack | exact (R_refl s1)]|].
   intros s2 _ _ _.
@@ -214,20 +213,29 @@ Proof.
   destruct (next_timer_to_poll _) as [sx t]. destruct t; cbn [brRp]; apply Hs; reflexivity.
 Qed.
 
-Theorem poll_loop_Rp : forall fuel s s',
-  poll_loop cci fuel s = (s', PollPending) -> pend_shape s s'.
+(* the last iteration starts from poll_start s1 *)
+Theorem poll_loop_Rp2 : forall fuel s s',
+  poll_loop cci fuel s = (s', PollPending) -> exists s1, R s s1 /\ pend_shape (poll_start s1) s'.
 Proof.
   induction fuel as [|fuel IH]; intros s s' H; cbn [poll_loop] in H; [discriminate|].
   pose proof (poll_body_Rp s) as F.
   destruct (poll_body cci s) as [s1 r1|s1|]; cbn [brRp] in *.
-  - inversion H; subst. exact F.
-  - eapply pend_shape_trans; [exact F | apply IH; exact H].
+  - inversion H; subst. exists s. split; [apply R_refl | exact F].
+  - apply IH in H. destruct H as (s2 & H1 & H2). exists s2. split; [|exact H2].
+    eapply R_trans; [apply H_start|]. eapply R_trans; [exact F | exact H1].
   - discriminate.
 Qed.
 
+Theorem poll_Rp2 : forall s s',
+  poll cci s = (s', PollPending) -> exists s1, R (poll_init s) s1 /\ pend_shape (poll_start s1) s'.
+Proof. intros s s' H. rewrite poll_unfold in H. eapply poll_loop_Rp2; exact H. Qed.
+
 Theorem poll_Rp : forall s s',
   poll cci s = (s', PollPending) -> pend_shape (poll_init s) s'.
-Proof. intros s s' H. rewrite poll_unfold in H. eapply poll_loop_Rp; exact H. Qed.
+Proof.
+  intros s s' H. apply poll_Rp2 in H. destruct H as (s1 & H1 & H2).
+  eapply pend_shape_trans; [|exact H2]. eapply R_trans; [exact H1 | apply H_start].
+Qed.
 
 End PollRelPending.
 
